@@ -106,7 +106,7 @@ class Namespace(pydsdl.Any):
         Get an iterator over all the nested namespaces within this namespace.
         This is a shallow iterator that only provides directly nested namespaces.
         """
-        return iter(self._nested_namespaces)
+        return iter(sorted(self._nested_namespaces, key=lambda namespace: namespace.full_namespace))
 
     def get_nested_types(self) -> typing.ItemsView[pydsdl.CompositeType, pathlib.Path]:
         """
